@@ -559,7 +559,7 @@ def jobs(tier):
             pre2 = [lambda s, ctx: len(s) == 0 and 0 <= ctx <= 2]
         else:
             pre2 = [lambda s, ctx, _lo=lo, _hi=hi: 1 <= len(s) <= L and _lo <= ord(s[0]) < _hi and 0 <= ctx <= 2]
-        js.append(Job('dump-flags/' + name, dump_flags, pre2, budget=200 if q else 1500, need_reach=name in ('empty', 'digit', 'a-z', 'A-Z'),
+        js.append(Job('dump-flags/' + name, dump_flags, pre2, budget=420 if q else 1500, need_reach=name in ('empty', 'digit', 'a-z', 'A-Z'),
                       bounds='serializer flags + emitter style choice for every str len<=%d (block, flow, simple-key contexts), first char class %s' % (L, name)))
     NB = 10 ** 6 if q else 10 ** 9
     js.append(Job('dump-int/nonneg', dump_int, [lambda n: 0 <= n < NB], budget=200 if q else 1500,
